@@ -240,7 +240,7 @@ def main():
                  'run, the parsed tree is normalised (sa/inline.py): helpers '
                  'and literal constants that are not in the reference census '
                  'sa/baseline_funcs.txt are written back into their uses.  '
-                 'Corpora kept for re-validation: seeded/ (69 confirmed '
+                 'Corpora kept for re-validation: seeded/ (107 confirmed '
                  'breaking changes, tools/seeded_run.py), benign/ '
                  '(behaviour-preserving refactors, tools/benign_run.py).',
     }
